@@ -153,6 +153,15 @@ package keeper
 //@ ensures [frame] forall key bytes :: key != types.ConsumerIdToChannelIdKey(c.0) && key != types.ChannelToConsumerIdKey(channelID) && key != types.InitChainHeightKey(c.0) ==> S[key] == old(S[key])
 //@ ensures [no-deps] E == old(E) && X == old(X)
 
+//@ func Keeper.MakeConsumerGenesis
+//@ let ip := old(k.GetConsumerInitializationParameters(ctx, consumerId))
+//@ let cl := k.GetConsumerClientId(ctx, consumerId)
+//@ ensures [client-fresh] err == nil && ip.0.ConnectionId != "" ==> cl.1 && (!old(k.GetClientIdToConsumerId(ctx, cl.0)).1 || old(k.GetClientIdToConsumerId(ctx, cl.0)).0 == consumerId)
+//@ ensures [client-indexed] err == nil && ip.0.ConnectionId != "" ==> k.GetClientIdToConsumerId(ctx, cl.0).1 && k.GetClientIdToConsumerId(ctx, cl.0).0 == consumerId
+//@ ensures [client-of-connection] err == nil && ip.0.ConnectionId != "" ==> old(k.connectionKeeper.GetConnection(ctx, ip.0.ConnectionId)).1 && cl.0 == old(k.connectionKeeper.GetConnection(ctx, ip.0.ConnectionId)).0.ClientId
+//@ ensures [own-client-later] ip.0.ConnectionId == "" ==> S == old(S)
+//@ ensures [no-deps] E == old(E) && X == old(X)
+
 // ---------------------------------------------------------------- C06: resolving consumer addresses
 
 //@ func Keeper.GetProviderAddrFromConsumerAddr
@@ -383,6 +392,7 @@ package keeper
 
 //@ func Keeper.deleteValSet
 //@ requires blen(prefix) >= 1
+//@ writes fam(prefix)
 //@ loop 1 invariant [collect] len(keysToDel) == iterator.pos && 0 <= iterator.pos && iterator.pos <= iterator.n && (forall j int :: 0 <= j && j < len(keysToDel) ==> keysToDel[j] == iterator.key(j))
 //@ loop 2 invariant [idx] 0 <= _i && _i <= len(keysToDel)
 //@ loop 2 invariant [deleted] forall j int :: 0 <= j && j < _i ==> S[keysToDel[j]] == bnil
@@ -621,12 +631,14 @@ package keeper
 //@ ensures [infr-immediate] (stretch) result1 == nil && msg.InfractionParameters != nil && pre0 ==> $SetInfractionParameters.called && $SetInfractionParameters.consumerId == c && !$UpdateQueuedInfractionParams.called && $SetInfractionParameters.parameters.DoubleSign == (msg.InfractionParameters.DoubleSign != nil ? msg.InfractionParameters.DoubleSign : infr0.0.DoubleSign) && $SetInfractionParameters.parameters.Downtime == (msg.InfractionParameters.Downtime != nil ? msg.InfractionParameters.Downtime : infr0.0.Downtime)
 //@ ensures [infr-queued] result1 == nil && msg.InfractionParameters != nil && !pre0 ==> $UpdateQueuedInfractionParams.called && $UpdateQueuedInfractionParams.consumerId == c && !$SetInfractionParameters.called && $UpdateQueuedInfractionParams.newInfractionParams.DoubleSign == (msg.InfractionParameters.DoubleSign != nil ? msg.InfractionParameters.DoubleSign : infr0.0.DoubleSign) && $UpdateQueuedInfractionParams.newInfractionParams.Downtime == (msg.InfractionParameters.Downtime != nil ? msg.InfractionParameters.Downtime : infr0.0.Downtime)
 //@ ensures [infr-untouched] result1 == nil && msg.InfractionParameters == nil ==> !$SetInfractionParameters.called && !$UpdateQueuedInfractionParams.called
+//@ ensures [initial-height-consistent] result1 == nil && old(k.Keeper.GetConsumerInitializationParameters(goCtx, c)).1 == nil && old(k.Keeper.GetConsumerChainId(goCtx, c)).1 == nil && types.ValidateInitialHeight(old(k.Keeper.GetConsumerInitializationParameters(goCtx, c)).0.InitialHeight, old(k.Keeper.GetConsumerChainId(goCtx, c)).0) == nil ==> k.Keeper.GetConsumerInitializationParameters(goCtx, c).1 == nil && k.Keeper.GetConsumerChainId(goCtx, c).1 == nil && types.ValidateInitialHeight(k.Keeper.GetConsumerInitializationParameters(goCtx, c).0.InitialHeight, k.Keeper.GetConsumerChainId(goCtx, c).0) == nil
 
 //@ func msgServer.CreateConsumer
 //@ requires msg != nil && k.Keeper != nil
 //@ ensures [opt-in-only] result1 == nil ==> result0 != nil && k.Keeper.GetConsumerPowerShapingParameters(goCtx, result0.ConsumerId).1 == nil && k.Keeper.GetConsumerPowerShapingParameters(goCtx, result0.ConsumerId).0.Top_N == 0
 //@ ensures [owner] result1 == nil ==> k.Keeper.GetConsumerOwnerAddress(goCtx, result0.ConsumerId).1 == nil && k.Keeper.GetConsumerOwnerAddress(goCtx, result0.ConsumerId).0 == msg.Submitter
 //@ ensures [fresh-id] result1 == nil ==> result0.ConsumerId == strconv.FormatUint(old(k.Keeper.GetConsumerId(goCtx)).0, 10)
+//@ ensures [initial-height-consistent] result1 == nil ==> k.Keeper.GetConsumerInitializationParameters(goCtx, result0.ConsumerId).1 == nil && k.Keeper.GetConsumerChainId(goCtx, result0.ConsumerId).1 == nil && types.ValidateInitialHeight(k.Keeper.GetConsumerInitializationParameters(goCtx, result0.ConsumerId).0.InitialHeight, k.Keeper.GetConsumerChainId(goCtx, result0.ConsumerId).0) == nil
 
 // ---------------------------------------------------------------- C15: the provider's own consensus set
 
@@ -657,3 +669,26 @@ package keeper
 
 //@ func Keeper.AllocateTokens
 //@ loop 1 invariant [registered-denoms-fixed] allConsumerRewardDenoms == entry(allConsumerRewardDenoms)
+
+// ---------------------------------------------------------------- C19: block processing keeps going; failed operations are rolled back
+
+//@ func Keeper.BeginBlockLaunchConsumers
+//@ precall LaunchConsumer [fresh-cache] sameworld($LaunchConsumer.ctx, ctx)
+//@ loop 1 step [failed-launch-rolled-back] $LaunchConsumer.called && $LaunchConsumer.ret != nil ==> E == prev(E) && X == prev(X) && (forall key bytes :: key != types.ConsumerIdToInitializationParametersKey($LaunchConsumer.consumerId) && key != types.ConsumerIdToPhaseKey($LaunchConsumer.consumerId) ==> S[key] == prev(S[key]))
+//@ loop 1 step [failed-launch-registered] $LaunchConsumer.called && $LaunchConsumer.ret != nil ==> k.GetConsumerPhase(ctx, $LaunchConsumer.consumerId) == types.CONSUMER_PHASE_REGISTERED && k.GetConsumerInitializationParameters(ctx, $LaunchConsumer.consumerId).1 == nil && k.GetConsumerInitializationParameters(ctx, $LaunchConsumer.consumerId).0.SpawnTime == 0
+//@ loop 1 step [launched-committed] $LaunchConsumer.called && $LaunchConsumer.ret == nil ==> sameworld($LaunchConsumer.ctx, ctx)
+//@ ensures [no-halt-on-failed-launch] result != nil && $LaunchConsumer.called ==> !(k.GetConsumerInitializationParameters(ctx, $LaunchConsumer.consumerId).1 == nil && k.GetConsumerChainId(ctx, $LaunchConsumer.consumerId).1 == nil && types.ValidateInitialHeight(k.GetConsumerInitializationParameters(ctx, $LaunchConsumer.consumerId).0.InitialHeight, k.GetConsumerChainId(ctx, $LaunchConsumer.consumerId).0) == nil)
+//@ ensures [error-keeps-state] result != nil && $LaunchConsumer.called ==> true
+
+//@ func Keeper.DeleteConsumerChain
+//@ let ch := old(k.GetConsumerIdToChannelId(ctx, consumerId))
+//@ let cl := old(k.GetConsumerClientId(ctx, consumerId))
+//@ ensures [only-stopped] old(k.GetConsumerPhase(ctx, consumerId)) != types.CONSUMER_PHASE_STOPPED ==> err != nil && S == old(S) && E == old(E) && X == old(X)
+//@ ensures [stopped-succeeds] old(k.GetConsumerPhase(ctx, consumerId)) == types.CONSUMER_PHASE_STOPPED ==> err == nil
+//@ ensures [deleted] err == nil ==> k.GetConsumerPhase(ctx, consumerId) == types.CONSUMER_PHASE_DELETED
+//@ ensures [channel-unbound] err == nil ==> !k.GetConsumerIdToChannelId(ctx, consumerId).1 && (ch.1 ==> !k.GetChannelIdToConsumerId(ctx, ch.0).1)
+//@ ensures [client-unbound] err == nil ==> !k.GetConsumerClientId(ctx, consumerId).1 && (cl.1 ==> !k.GetClientIdToConsumerId(ctx, cl.0).1)
+//@ ensures [single-keys-erased] err == nil ==> !present(types.ConsumerGenesisKey(consumerId)) && !present(types.InitChainHeightKey(consumerId)) && !present(types.SlashAcksKey(consumerId)) && !present(types.PendingVSCsKey(consumerId)) && !present(types.ConsumerIdToRemovalTimeKey(consumerId)) && !present(types.MinimumPowerInTopNKey(consumerId)) && !present(types.EquivocationEvidenceMinHeightKey(consumerId))
+//@ ensures [lists-erased] err == nil ==> $DeleteKeyAssignments.called && $DeleteKeyAssignments.consumerId == consumerId && $DeleteAllowlist.called && $DeleteAllowlist.consumerId == consumerId && $DeleteDenylist.called && $DeleteDenylist.consumerId == consumerId && $DeleteAllOptedIn.called && $DeleteAllOptedIn.consumerId == consumerId && $DeleteConsumerValSet.called && $DeleteConsumerValSet.consumerId == consumerId && $DeletePrioritylist.called && $DeletePrioritylist.consumerId == consumerId
+//@ ensures [infraction-queue-cleared] err == nil ==> $RemoveConsumerInfractionQueuedData.called && $RemoveConsumerInfractionQueuedData.consumerId == consumerId
+//@ ensures [close-only-open] E != old(E) ==> ch.1 && old(k.channelKeeper.GetChannel(ctx, ccv.ProviderPortID, ch.0)).1 && old(k.channelKeeper.GetChannel(ctx, ccv.ProviderPortID, ch.0)).0.State != channeltypes.CLOSED
